@@ -302,7 +302,7 @@ func fixedCases() []corr.Case {
 			out = append(out, mk("accept", ls...))
 		}
 	}
-	// real timeouts (60 ms) and loopback TCP
+	// real timeouts (read 60 ms, write 250 ms) and loopback TCP
 	out = append(out,
 		mk("real-timeout", "init 2 rt", "conn", "conn", "send 0 aa", "conn"),
 		mk("real-timeout", "init 1 wt", "conn", "send 0 aa", "hold 0", "send 0 bb", "send 0 cc", "conn"),
@@ -486,7 +486,7 @@ func spec() corr.Spec {
 			}
 			return acc && act
 		},
-		Rule: "scripts of connection attempts against maxConn -1..3 and, per session, Send (incl. zero-length), local Close, peer close, peer reading/not reading, handler data/error/panic/panic(nil), injected read/write errors, forced and real (60 ms) read/write timeouts, failing Set*Deadline, repeated Start; every terminating event alone and in every ordered pair, with and without a blocked write and queued items; 0..5 queued sends before a local Close; sessions over net.Pipe through the real accept loop and over loopback TCP; a case is non-trivial when a session was started and at least one operation was applied to it; distinct = distinct script text",
+		Rule: "scripts of connection attempts against maxConn -1..3 and, per session, Send (incl. zero-length), local Close, peer close, peer reading/not reading, handler data/error/panic/panic(nil), injected read/write errors, forced and real (60 ms read / 250 ms write) timeouts, failing Set*Deadline, repeated Start; every terminating event alone and in every ordered pair, with and without a blocked write and queued items; 0..5 queued sends before a local Close; sessions over net.Pipe through the real accept loop and over loopback TCP; a case is non-trivial when a session was started and at least one operation was applied to it; distinct = distinct script text",
 		Assumptions: []string{
 			"net.Conn behaviour is assumed at the transition level: closing a connection (or the peer closing) makes the blocked Read/Write of the other loop return an error; a Write to a peer that does not read blocks; deadlines fire (checked on net.Pipe and loopback TCP by the correspondence, not proved)",
 			"sync.Once, sync.Cond, atomic.Int32 behave as documented; the Go scheduler eventually runs a runnable goroutine",
